@@ -191,16 +191,16 @@ def fp_cell_lemma():
 (define-fun msq () (_ FloatingPoint 11 53) ((_ to_fp 11 53) %s))
 (declare-const x1 (_ FloatingPoint 11 53))
 (declare-const x2 (_ FloatingPoint 11 53))
-(assert (fp.leq ((_ to_fp 11 53) RNE (- 1000.0)) x1))
+(assert (fp.leq ((_ to_fp 11 53) %s) x1))
 (assert (fp.leq x1 x2))
-(assert (fp.leq x2 ((_ to_fp 11 53) RNE 10000.0)))
+(assert (fp.leq x2 ((_ to_fp 11 53) %s)))
 (define-fun d () (_ FloatingPoint 11 53) (fp.sub RNE x2 x1))
 (assert (fp.leq (fp.mul RNE d d) msq))
 (define-fun c1 () (_ FloatingPoint 11 53) (fp.roundToIntegral RTN (fp.div RNE x1 box)))
 (define-fun c2 () (_ FloatingPoint 11 53) (fp.roundToIntegral RTN (fp.div RNE x2 box)))
-(assert (fp.gt (fp.sub RNE c2 c1) ((_ to_fp 11 53) RNE 1.0)))
+(assert (fp.gt (fp.sub RNE c2 c1) ((_ to_fp 11 53) %s)))
 (check-sat)
-""" % (_hexbits(box), _hexbits(msq))
+""" % (_hexbits(box), _hexbits(msq), _hexbits(-1000.0), _hexbits(10000.0), _hexbits(1.0))
     return smt, box, msq
 
 
@@ -249,7 +249,7 @@ def obligations(tier):
             obs.append(Obligation('O1-two-atoms[%s-%s]@%g' % (pr[0], pr[1], lo), mk_two([pr], lo, 2.51, 2.51), code=code,
                                   bounds='elements %s-%s; atom 1 in [%g,%g)^3, atom 2 within +-2.51 per axis (all 27 relative cells); both list orders'
                                          % (pr[0], pr[1], lo, lo + 2.51),
-                                  claim_doc='bonded <=> check_distance; symmetric; no self bond; S-S flags both', max_paths=4000, wall_s=170))
+                                  claim_doc='bonded <=> check_distance; symmetric; no self bond; S-S flags both', max_paths=4000 if tier == 'quick' else 20000, wall_s=170 if tier == 'quick' else 900))
     if tier == 'thorough':
         for lo in (0.0, -2.51):
             obs.append(Obligation('O1-far-cells@%g' % lo, mk_two([('C', 'C'), ('S', 'S')], lo, 2.51, 5.02), code=code,
